@@ -65,7 +65,24 @@ int main() {
       std::string call = "x(";
       for (size_t j = 0; j < k; ++j) call += (j ? ", " : "") + args[j];
       call += ")";
-      std::string okl = "@kernel void k" + id + "(" + ARGS + ", int *x" + attr + ") {\n"
+      // a decoy kernel in the same source, BEFORE the kernel under test, with a same-named variable of the same
+      // arity but the reversed index order: per-variable state must not leak between variables of equal name
+      // (seeded change C19-m3 memoised the evaluated @dimOrder by variable name and arity)
+      std::string decoy;
+      if (k >= 2) {
+        std::string dattr = " @dim(";
+        for (size_t j = 0; j < k; ++j) dattr += (j ? ", " : "") + dims[j];
+        dattr += ") @dimOrder(";
+        for (size_t j = 0; j < k; ++j) dattr += (j ? ", " : "") + (order.empty() ? std::to_string(k - 1 - j) : order[k - 1 - j]);
+        dattr += ")";
+        std::string dcall = "x(";
+        for (size_t j = 0; j < k; ++j) dcall += (j ? ", 0" : "0");
+        dcall += ")";
+        decoy = "@kernel void kpre" + id + "(" + ARGS + ", int *x" + dattr + ") {\n"
+          "  for (int o = 0; o < 1; ++o; @outer) {\n    for (int i = 0; i < 1; ++i; @inner) {\n"
+          "      const long pre = &" + dcall + " - x;\n      rec(" + id + ", pre);\n    }\n  }\n}\n";
+      }
+      std::string okl = decoy + "@kernel void k" + id + "(" + ARGS + ", int *x" + attr + ") {\n"
         "  for (int o = 0; o < 1; ++o; @outer) {\n    for (int i = 0; i < 1; ++i; @inner) {\n"
         "      const long idx = &" + call + " - x;\n      rec(" + id + ", idx);\n    }\n  }\n}\n";
       std::string out = "ok", dump = " @@SRC okl=" + hp::hex(okl);
